@@ -70,9 +70,9 @@ def r_len(ctx, P):
         d, u = serlen.compare(w, l)
         unk = serlen.has_unknown(w) + serlen.has_unknown(l)
         key = '%s:S05-1:R-len:%s' % (P, k)
-        if unk or w.unanalysed or l.unanalysed:
+        if (unk or w.unanalysed or l.unanalysed) and not d:
             reason = (w.unanalysed + l.unanalysed + [str(x) for x in unk])[:3]
-            unan.append(dict(impl=k, why=reason, reviewed=rev.get(k)))
+            unan.append(dict(impl=k, why=reason, reviewed=rev.get(k), arms_undecided=len(u)))
             continue
         if d:
             if k in rev:
